@@ -87,6 +87,10 @@ pub enum ManifestFault {
     ListedFileAltered(usize),
     ManifestMissing,
     NotJson,
+    /// two neighbouring entries `(k1, h1) (k2, h2)` replaced by the single entry `(k1 h1 k2, h2)`,
+    /// signature untouched; the archive carries k2's content under the merged name and neither
+    /// k1 nor k2 (the signed hash covers the plain concatenation of keys and values)
+    MergeEntries(usize),
 }
 
 #[derive(Serialize, Deserialize, Clone, Debug, PartialEq, Eq)]
@@ -138,6 +142,7 @@ impl Fault {
                 ManifestFault::ListedFileAltered(_) => "manifest_listed_file_altered",
                 ManifestFault::ManifestMissing => "manifest_missing",
                 ManifestFault::NotJson => "manifest_not_json",
+                ManifestFault::MergeEntries(_) => "manifest_entries_merged_signature_kept",
             },
         }
     }
@@ -359,7 +364,8 @@ pub fn generate(rng: &mut Rng) -> (Config, Vec<Fault>) {
             }
             _ => {
                 // ancillary manifest family (only meaningful when some step downloads ancillary)
-                let what = match rng.below(10) {
+                let what = match rng.below(11) {
+                    10 => ManifestFault::MergeEntries(rng.index(8)),
                     0 => ManifestFault::HashChanged(rng.index(8)),
                     1 => ManifestFault::EntryAdded(
                         rng.pick(&[
@@ -533,6 +539,8 @@ pub fn build_step(cfg: &Config, faults: &[Fault], step: usize, root: &Path) -> B
         let mut manifest_json = serde_json::to_value(&honest_manifest).expect("manifest json");
         let mut manifest_present = true;
         let mut manifest_raw: Option<Vec<u8>> = None;
+        // (manifest JSON right after a merge forgery of the untouched honest manifest, what A really signed)
+        let mut merge_forgery: Option<(Value, BTreeMap<PathBuf, String>)> = None;
         let mut comp = mc.comp_anc;
         let reserialise = |data: &BTreeMap<PathBuf, String>, sig: &Value| -> Value {
             let mut v = serde_json::to_value(AncillaryFilesManifest::new_without_signature(data.clone()))
@@ -623,6 +631,39 @@ pub fn build_step(cfg: &Config, faults: &[Fault], step: usize, root: &Path) -> B
                     ManifestFault::NotJson => {
                         manifest_raw = Some(b"{ this is not json".to_vec());
                     }
+                    ManifestFault::MergeEntries(i) => {
+                        if data.len() >= 2 {
+                            let keys: Vec<PathBuf> = data.keys().cloned().collect();
+                            let i = i % (keys.len() - 1);
+                            let (k1, k2) = (keys[i].clone(), keys[i + 1].clone());
+                            let (h1, h2) = (data[&k1].clone(), data[&k2].clone());
+                            let merged = format!("{}{}{}", k1.to_string_lossy(), h1, k2.to_string_lossy());
+                            let mut forged = data.clone();
+                            forged.remove(&k1);
+                            forged.remove(&k2);
+                            forged.insert(PathBuf::from(&merged), h2);
+                            // applicable only if the byte string the signature covers is unchanged
+                            // (the merged key must keep its place in the key order)
+                            let same = AncillaryFilesManifest::new_without_signature(forged.clone()).compute_hash()
+                                == AncillaryFilesManifest::new_without_signature(data.clone()).compute_hash();
+                            let content = entries.iter().find(|e| Path::new(&e.path) == k2.as_path()).and_then(|e| match &e.kind {
+                                EntryKind::File(b) => Some(b.clone()),
+                                _ => None,
+                            });
+                            if let (true, Some(content)) = (same, content) {
+                                entries.retain(|e| Path::new(&e.path) != k1.as_path() && Path::new(&e.path) != k2.as_path());
+                                let disguise = if merged.len() >= 100 { Some(("merged-entry".to_string(), archive::Via::GnuLongName)) } else { None };
+                                entries.push(Entry { path: merged, kind: EntryKind::File(content), disguise });
+                                let untouched = manifest_json == serde_json::to_value(&honest_manifest).expect("manifest json");
+                                let signed = data.clone();
+                                data = forged;
+                                manifest_json = reserialise(&data, &manifest_json["signature"]);
+                                if untouched {
+                                    merge_forgery = Some((manifest_json.clone(), signed));
+                                }
+                            }
+                        }
+                    }
                 },
                 _ => {}
             }
@@ -641,6 +682,17 @@ pub fn build_step(cfg: &Config, faults: &[Fault], step: usize, root: &Path) -> B
             built.vouched.insert(
                 m,
                 data.iter().map(|(k, v)| (k.to_string_lossy().to_string(), v.clone())).collect(),
+            );
+        } else if let Some((forged_json, signed)) = &merge_forgery
+            && manifest_present
+            && !raw_replaced
+            && manifest_json == *forged_json
+        {
+            // the served manifest carries A's signature over the same byte string but is not what
+            // A signed: A vouches for the entries of the manifest it signed, nothing else
+            built.vouched.insert(
+                m,
+                signed.iter().map(|(k, v)| (k.to_string_lossy().to_string(), v.clone())).collect(),
             );
         }
         built.anc_entries.insert(
@@ -1091,11 +1143,23 @@ pub struct KnownTrigger {
     pub neutralise: fn(&Config, &[Fault]) -> Option<(Config, Vec<Fault>)>,
 }
 
-/// Empty: the three defects this engine found (foreign entries of immutable archives, immutable
-/// files outside the requested range, ancillary temp dir left on abort) were repaired in /repo
-/// (known-findings.json status `fixed`, which suppresses nothing), so every violation is
-/// reported unattributed. The counterfactual machinery below stays for future entries.
-pub const KNOWN_TRIGGERS: &[KnownTrigger] = &[];
+/// The three defects this engine found in round 1 (foreign entries of immutable archives,
+/// immutable files outside the requested range, ancillary temp dir left on abort) were repaired
+/// in /repo (known-findings.json status `fixed`, which suppresses nothing). One entry: the signed
+/// hash of the ancillary manifest covers the plain concatenation of keys and values, so a
+/// manifest with two neighbouring entries merged into one keeps a valid signature (known, not
+/// repairable without changing the signed format pinned by an existing test).
+pub const KNOWN_TRIGGERS: &[KnownTrigger] = &[KnownTrigger {
+    id: "C19-manifest-hash-concatenation-ambiguity",
+    neutralise: |cfg, faults| {
+        let kept: Vec<Fault> = faults
+            .iter()
+            .filter(|f| !matches!(f, Fault::Manifest { what: ManifestFault::MergeEntries(_), .. }))
+            .cloned()
+            .collect();
+        if kept.len() == faults.len() { None } else { Some((cfg.clone(), kept)) }
+    },
+}];
 
 type VKey = (usize, &'static str, String);
 fn vkeys(o: &Outcome) -> BTreeSet<VKey> {
